@@ -5,6 +5,7 @@ From TI Require Import lib.Term lib.TermFacts lib.Rect model.Block proofs.BlockP
 From TI Require model.RenderData proofs.RenderDataProofs.
 From TI Require gen.BlockSrc proofs.BlockSrcTie.
 From TI Require model.BlockSeq model.BlockSeqTie proofs.BlockSeqProofs proofs.BlockSeqTieProofs.
+From TI Require model.BlockSeqSrc proofs.BlockSeqSrcProofs.
 Open Scope Z_scope.
 
 (** After executing a block render of [rows] (pixel pairs at render resolution, as
@@ -237,3 +238,117 @@ Theorem C02_seq_tie_sound :
     TI.model.BlockSeqTie.o_toks ob = TI.model.BlockSeq.render_of TI.model.RenderData.comp_exact f s.
 Proof. exact TI.proofs.BlockSeqTieProofs.qcheck_observed_is_render_of. Qed.
 Print Assumptions C02_seq_tie_sound.
+
+(** *** the SOURCE OBJECTS behind a sequence ([model/BlockSeqSrc.v]).  The quantifier covers every
+    image PIL can open: also formats decoded lazily whose decoder can be configured before the
+    first load (JPEG / MPO draft mode: decode at 1/2, 1/4, 1/8 scale, in place and for good), handed
+    over as a path (opened afresh for every render) or as a PIL object of the caller's that lives
+    through the sequence.  [dec i n d] is frame [n] of source [i] decoded at scale 1/[d] (the
+    decoder's), [resample] conversion + BOX resampling (Pillow's), [persistent i] says whether
+    instance [i]'s source is one object for the whole sequence.  The code never configures a
+    decoder ([full_policy]).  For EVERY sequence over sources the caller hands in intact (not
+    loaded yet, or loaded in full): the renders handed out are those of [BlockSeq.bs_run] over the
+    ONE world of full decodes -- so all the sequence theorems above speak of the image's own
+    pixels --, and afterwards every object of the caller's is still intact: reading it yields the
+    full decode of the frame. *)
+Theorem C02_seq_sources_intact :
+  (forall comp image dec resample persistent ops bs ds,
+     TI.proofs.BlockSeqSrcProofs.callers_intact persistent ds ->
+     TI.model.BlockSeqSrc.srcs_run comp image dec resample persistent TI.model.BlockSeqSrc.full_policy (bs, ds) ops
+     = TI.model.BlockSeq.bs_run comp (TI.model.BlockSeqSrc.full_src image dec resample) bs ops)
+  /\
+  (forall comp image dec resample persistent ops bs ds i n,
+     TI.proofs.BlockSeqSrcProofs.callers_intact persistent ds -> persistent i = true ->
+     TI.model.BlockSeqSrc.intact
+       (snd (TI.model.BlockSeqSrc.srcs_final comp image dec resample persistent TI.model.BlockSeqSrc.full_policy (bs, ds) ops) i) = true
+     /\ TI.model.BlockSeqSrc.caller_view image dec
+          (snd (TI.model.BlockSeqSrc.srcs_final comp image dec resample persistent TI.model.BlockSeqSrc.full_policy (bs, ds) ops)) i n
+        = dec i n 1%nat).
+Proof. exact TI.proofs.BlockSeqSrcProofs.srcs_full. Qed.
+Print Assumptions C02_seq_sources_intact.
+
+(** the output of a request is the render of the FULL decode of the frame its own history
+    selects, resampled to the size last set on its own instance: it does not depend on the sizes
+    requested before (a thumbnail render first, then a render at the image's own pixel size: the
+    second is pixel-for-pixel), nor on which source objects were loaded when *)
+Theorem C02_seq_output_independent_of_earlier_sizes :
+  (forall comp image dec resample persistent bs ds pre i s post,
+     TI.proofs.BlockSeqSrcProofs.callers_intact persistent ds ->
+     nth_error (TI.model.BlockSeqSrc.srcs_run comp image dec resample persistent TI.model.BlockSeqSrc.full_policy (bs, ds)
+                  (pre ++ TI.model.BlockSeq.ORender i s :: post)) (length pre)
+     = Some (Some {| TI.model.BlockSeq.r_inst := i;
+                     TI.model.BlockSeq.r_frame := TI.model.BlockSeq.sel_pos i (TI.model.BlockSeq.pos (bs i)) pre;
+                     TI.model.BlockSeq.r_size := TI.model.BlockSeq.sel_size i (TI.model.BlockSeq.isize (bs i)) pre;
+                     TI.model.BlockSeq.r_toks :=
+                       TI.model.BlockSeq.render_of comp
+                         (resample (dec i (TI.model.BlockSeq.sel_pos i (TI.model.BlockSeq.pos (bs i)) pre) 1%nat)
+                                   (TI.model.BlockSeq.sel_size i (TI.model.BlockSeq.isize (bs i)) pre)) s |}))
+  /\
+  (forall comp image dec resample persistent bs ds pre i s post bs' ds' pre' post',
+     TI.proofs.BlockSeqSrcProofs.callers_intact persistent ds ->
+     TI.proofs.BlockSeqSrcProofs.callers_intact persistent ds' ->
+     TI.model.BlockSeq.sel_pos i (TI.model.BlockSeq.pos (bs i)) pre
+     = TI.model.BlockSeq.sel_pos i (TI.model.BlockSeq.pos (bs' i)) pre' ->
+     TI.model.BlockSeq.sel_size i (TI.model.BlockSeq.isize (bs i)) pre
+     = TI.model.BlockSeq.sel_size i (TI.model.BlockSeq.isize (bs' i)) pre' ->
+     nth_error (TI.model.BlockSeqSrc.srcs_run comp image dec resample persistent TI.model.BlockSeqSrc.full_policy (bs, ds)
+                  (pre ++ TI.model.BlockSeq.ORender i s :: post)) (length pre)
+     = nth_error (TI.model.BlockSeqSrc.srcs_run comp image dec resample persistent TI.model.BlockSeqSrc.full_policy (bs', ds')
+                    (pre' ++ TI.model.BlockSeq.ORender i s :: post')) (length pre')).
+Proof. exact TI.proofs.BlockSeqSrcProofs.srcs_requests. Qed.
+Print Assumptions C02_seq_output_independent_of_earlier_sizes.
+
+(** the decoder-state variant (NOT the code: an unloaded source at least twice the render size is
+    configured to decode at reduced scale before convert / resize) violates both, in a concrete
+    world ([BlockSeqSrcProofs.ex_dec], [ex_resample]: a 2 x 4 pixel source): after a thumbnail
+    render of a caller's object, the render at the image's own pixel size shows the half-scale
+    leftover blown up instead of the image's pixels (while the same request served first is right),
+    and the caller's object has become the half-scale decode.  (For a source opened afresh per
+    render the thumbnail itself shows the decoder's reduced-scale pixels, not the BOX-resampled
+    full decode: [BlockSeqSrcProofs.draft_file_thumbnail_refuted].) *)
+Theorem C02_seq_decoder_state_variant_refuted :
+  let out := TI.model.BlockSeqSrc.srcs_run TI.model.RenderData.comp_exact TI.proofs.BlockSeqSrcProofs.eimg
+               TI.proofs.BlockSeqSrcProofs.ex_dec TI.proofs.BlockSeqSrcProofs.ex_resample (fun _ => true)
+               (TI.model.BlockSeqSrc.draft_policy TI.proofs.BlockSeqSrcProofs.ex_orig)
+               (TI.proofs.BlockSeqSrcProofs.ex_bs0, TI.proofs.BlockSeqSrcProofs.ex_ds0)
+               TI.proofs.BlockSeqSrcProofs.ex_thumb_then_full in
+  let want := TI.model.BlockSeq.bs_run TI.model.RenderData.comp_exact
+                (TI.model.BlockSeqSrc.full_src TI.proofs.BlockSeqSrcProofs.eimg TI.proofs.BlockSeqSrcProofs.ex_dec
+                   TI.proofs.BlockSeqSrcProofs.ex_resample)
+                TI.proofs.BlockSeqSrcProofs.ex_bs0 TI.proofs.BlockSeqSrcProofs.ex_thumb_then_full in
+  nth_error (TI.proofs.BlockSeqSrcProofs.toks_of out) 3
+  = Some (Some (TI.model.BlockSeq.render_of TI.model.RenderData.comp_exact
+                  (TI.proofs.BlockSeqSrcProofs.ex_resample TI.proofs.BlockSeqSrcProofs.EHalf (2, 2)%nat)
+                  TI.proofs.BlockSeqSrcProofs.ex_plain))
+  /\ nth_error (TI.proofs.BlockSeqSrcProofs.toks_of want) 3
+     = Some (Some (TI.model.BlockSeq.render_of TI.model.RenderData.comp_exact
+                     (TI.proofs.BlockSeqSrcProofs.ex_resample TI.proofs.BlockSeqSrcProofs.EFull (2, 2)%nat)
+                     TI.proofs.BlockSeqSrcProofs.ex_plain))
+  /\ nth_error (TI.proofs.BlockSeqSrcProofs.toks_of out) 3 <> nth_error (TI.proofs.BlockSeqSrcProofs.toks_of want) 3
+  /\ TI.proofs.BlockSeqSrcProofs.toks_of
+       (TI.model.BlockSeqSrc.srcs_run TI.model.RenderData.comp_exact TI.proofs.BlockSeqSrcProofs.eimg
+          TI.proofs.BlockSeqSrcProofs.ex_dec TI.proofs.BlockSeqSrcProofs.ex_resample (fun _ => true)
+          (TI.model.BlockSeqSrc.draft_policy TI.proofs.BlockSeqSrcProofs.ex_orig)
+          (TI.proofs.BlockSeqSrcProofs.ex_bs0, TI.proofs.BlockSeqSrcProofs.ex_ds0)
+          [TI.model.BlockSeq.ORender 0 TI.proofs.BlockSeqSrcProofs.ex_plain])
+     = TI.proofs.BlockSeqSrcProofs.toks_of
+         (TI.model.BlockSeq.bs_run TI.model.RenderData.comp_exact
+            (TI.model.BlockSeqSrc.full_src TI.proofs.BlockSeqSrcProofs.eimg TI.proofs.BlockSeqSrcProofs.ex_dec
+               TI.proofs.BlockSeqSrcProofs.ex_resample)
+            TI.proofs.BlockSeqSrcProofs.ex_bs0 [TI.model.BlockSeq.ORender 0 TI.proofs.BlockSeqSrcProofs.ex_plain])
+  /\ TI.model.BlockSeqSrc.caller_view TI.proofs.BlockSeqSrcProofs.eimg TI.proofs.BlockSeqSrcProofs.ex_dec
+       (snd (TI.model.BlockSeqSrc.srcs_final TI.model.RenderData.comp_exact TI.proofs.BlockSeqSrcProofs.eimg
+               TI.proofs.BlockSeqSrcProofs.ex_dec TI.proofs.BlockSeqSrcProofs.ex_resample (fun _ => true)
+               (TI.model.BlockSeqSrc.draft_policy TI.proofs.BlockSeqSrcProofs.ex_orig)
+               (TI.proofs.BlockSeqSrcProofs.ex_bs0, TI.proofs.BlockSeqSrcProofs.ex_ds0)
+               TI.proofs.BlockSeqSrcProofs.ex_thumb_then_full)) 0 0
+     = TI.proofs.BlockSeqSrcProofs.EHalf
+  /\ TI.model.BlockSeqSrc.intact
+       (snd (TI.model.BlockSeqSrc.srcs_final TI.model.RenderData.comp_exact TI.proofs.BlockSeqSrcProofs.eimg
+               TI.proofs.BlockSeqSrcProofs.ex_dec TI.proofs.BlockSeqSrcProofs.ex_resample (fun _ => true)
+               (TI.model.BlockSeqSrc.draft_policy TI.proofs.BlockSeqSrcProofs.ex_orig)
+               (TI.proofs.BlockSeqSrcProofs.ex_bs0, TI.proofs.BlockSeqSrcProofs.ex_ds0)
+               TI.proofs.BlockSeqSrcProofs.ex_thumb_then_full) 0%nat)
+     = false.
+Proof. exact TI.proofs.BlockSeqSrcProofs.draft_thumbnail_then_full_refuted. Qed.
+Print Assumptions C02_seq_decoder_state_variant_refuted.
